@@ -84,7 +84,7 @@ def dump (d : Db) : String :=
     let ps := match d.commit? i with | some c => c.parents | none => []
     s!"{i}(" ++ ".".intercalate (ps.map toString) ++ ")"))
   let st := ",".intercalate (d.status.map (fun s => s.1 ++ "/" ++ (if s.2.1 then "1" else "0") ++ "/" ++ s.2.2.replace " " "-"))
-  s!"cur={d.cur};B:{bs};T:{ts};C:{cs};ST:{st};W:{showRoot d.ws.working};S:{showRoot d.ws.staged};H:{showRoot d.headRoot};stash={d.stashes.length}"
+  s!"cur={d.cur} B:{bs} T:{ts} C:{cs} ST:{st} W:{showRoot d.ws.working} S:{showRoot d.ws.staged} H:{showRoot d.headRoot} stash={d.stashes.length}"
 
 def parseAction (s : String) : Option Action :=
   if s == "p" then some .pick else if s == "d" then some .drop else if s == "s" then some .squash
@@ -155,8 +155,11 @@ def step (d : Db) : List String → Db × String
   | ["merge", b, noff, m] => match unhexS m with | some m => change d (d.mergeBranch b (noff == "1") m) | none => bad d
   | ["cherry", r] => match parseRef r with | some r => change d (d.cherryPick r) | none => bad d
   | ["revert", r] => match parseRef r with | some r => change d (d.revert r) | none => bad d
+  -- same procedures run with @@dolt_allow_commit_conflicts = 1 and `--abort` after a conflict
+  | ["cherryA", r] => match parseRef r with | some r => change d (d.cherryPickAbort r) | none => bad d
+  | ["revertA", r] => match parseRef r with | some r => change d (d.revertAbort r) | none => bad d
   | ["rebase", r, plan] =>
-    match parseRef r, ((plan.splitOn ",").filter (· ≠ "")).mapM parseAction with
+    match parseRef r, ((plan.splitOn ",").filter (fun a => a ≠ "" && a ≠ "-")).mapM parseAction with
     | some r, some plan => change d (d.rebase r plan)
     | _, _ => bad d
   | ["rebaselen", r] =>   -- query: number of commits the default plan would contain
